@@ -241,6 +241,16 @@ def runMt (_prop : String) (f : List String) (obsS : String) : Verdict :=
     -- stats exact under concurrency (socket-backed sink)
     let statsOk := kind != "bunix" || statsS == s!"S{(dgs.map List.length).foldl (· + ·) 0}.{dgs.length}.0.0"
     if !statsOk then fail "C14" "socket stats are not exact under concurrent emitters" else
+    -- every emit returned Ok: whatever the kernel lost afterwards, the sink itself must have sent every
+    -- acknowledged byte and dropped nothing (its own accounting)
+    let mlen (t i : Nat) : Nat := max (6 + (t * 5) % 23) (3 + (toString t).length + (toString i).length)
+    let expBytes : Nat := (List.range threads).foldl (fun acc t => (List.range per).foldl (fun a i =>
+      let l := mlen t i
+      a + (if l + 1 ≤ cap then l + 1 else l)) acc) 0
+    let sentOk : Bool := kind != "budp" || (match ((statsS.drop 1).toString.splitOn ".").map String.toNat? with
+      | [some b, some p, some bd, some pd] => b == expBytes && bd == 0 && pd == 0 && p ≥ dgs.length
+      | _ => false)
+    if !sentOk then fail "C12+C14" "every emit was acknowledged, yet the sink's own counters show bytes it never sent (or dropped)" else
     -- flush-free runs: the datagram boundaries are the model's for the observed linearisation
     if flS == "0" && !lossy then
       let bl := buffered.map (·.1)
